@@ -55,6 +55,7 @@ type DB struct {
 	// keeps working: writes issued while that panic unwinds (deferred flushes) DO reach the disk
 	ioErr      bool
 	LateWrites int // writes attempted between a crash and Revive (dropped)
+	IOFailures int // I/O errors injected so far
 }
 
 var _ dbm.DB = (*DB)(nil)
@@ -158,6 +159,7 @@ func (d *DB) apply(kind string, sync bool, ops []op) {
 	if d.crashAt >= 0 && d.seq == d.crashAt {
 		if d.ioErr {
 			d.crashAt = -1
+			d.IOFailures++
 			panic(Crash{Event: d.seq, Label: label, IOError: true})
 		}
 		d.dead = true
